@@ -13,6 +13,81 @@ use std::sync::atomic::{AtomicBool, Ordering as StdOrdering};
 use std::sync::Arc;
 
 pub static LOG_CLOCK: AtomicBool = AtomicBool::new(false);
+
+// ---- a fixed pool of statics (thread-locals, lazy statics, static Once cells)
+
+/// Per-program behaviour of the thread-local destructors: for key k, `touch[k]` is the key its
+/// destructor reads (-1: none) and `yields[k]` whether it yields while being dropped.
+pub static TLS_TOUCH: [std::sync::atomic::AtomicI64; 2] = [std::sync::atomic::AtomicI64::new(-1), std::sync::atomic::AtomicI64::new(-1)];
+pub static TLS_YIELD: [AtomicBool; 2] = [AtomicBool::new(false), AtomicBool::new(false)];
+
+pub struct TlsVal {
+    key: usize,
+    val: std::cell::Cell<i64>,
+}
+
+fn tls_read(k: usize) -> i64 {
+    let r = match k {
+        0 => TL0.try_with(|c| c.val.get()),
+        _ => TL1.try_with(|c| c.val.get()),
+    };
+    r.unwrap_or(-7)
+}
+
+impl TlsVal {
+    fn new(key: usize) -> Self {
+        crate::rec::TLS_LIVE.fetch_add(1, StdOrdering::SeqCst);
+        TlsVal { key, val: std::cell::Cell::new(100 + key as i64) }
+    }
+}
+
+impl Drop for TlsVal {
+    fn drop(&mut self) {
+        crate::rec::TLS_LIVE.fetch_sub(1, StdOrdering::SeqCst);
+        if std::thread::panicking() {
+            return;
+        }
+        let touch = TLS_TOUCH[self.key].load(StdOrdering::Relaxed);
+        let tr = if touch >= 0 { tls_read(touch as usize) } else { 0 };
+        let t = shuttle::current::get_current_task().map(|t| usize::from(t) as i64).unwrap_or(-1);
+        if t < 0 {
+            // dropped while an abandoned execution is cleaned up: only counted (the order in which the
+            // runtime drops the slots of an unfinished task is unspecified)
+            return;
+        }
+        log(json!({"e":"dt","t":t,"key":self.key,"val":self.val.get(),"touch":touch,"tr":tr}));
+        if TLS_YIELD[self.key].load(StdOrdering::Relaxed) && t >= 0 {
+            thread::yield_now();
+        }
+    }
+}
+
+shuttle::thread_local! {
+    static TL0: TlsVal = TlsVal::new(0);
+    static TL1: TlsVal = TlsVal::new(1);
+}
+
+pub struct LzVal {
+    k: usize,
+    a: AtomicU8,
+}
+
+impl Drop for LzVal {
+    fn drop(&mut self) {
+        if std::thread::panicking() {
+            return;
+        }
+        log(json!({"e":"drop","what":"lazy","i":self.k}));
+    }
+}
+
+shuttle::lazy_static! {
+    static ref LZ0: LzVal = LzVal { k: 0, a: AtomicU8::new(0) };
+    static ref LZ1: LzVal = LzVal { k: 1, a: AtomicU8::new(0) };
+}
+
+static SONCE0: Once = Once::new();
+static SONCE1: Once = Once::new();
 pub static LOG_SLEN: AtomicBool = AtomicBool::new(false);
 
 /// Shuttle runs every task on one OS thread, cooperatively; plain interior mutability is enough
@@ -137,6 +212,10 @@ fn log_op(ix: usize, pc: usize, k: &str, r: i64) {
 }
 
 pub fn run_main(prog: Arc<Prog>) {
+    for k in 0..2 {
+        TLS_TOUCH[k].store(prog.tls_touch.get(k).copied().unwrap_or(-1), StdOrdering::Relaxed);
+        TLS_YIELD[k].store(prog.tls_yield.get(k).copied().unwrap_or(0) != 0, StdOrdering::Relaxed);
+    }
     let w = Arc::new(World::new(prog));
     *w.threads[0].get() = Some(thread::current());
     run_task(w, 0);
@@ -191,6 +270,65 @@ fn exec_op<'a>(warc: &Arc<World>, w: &'a World, _ix: usize, op: &Op, guards: &mu
             0
         }
         "nop" => 0,
+        // ---- thread-locals (per-thread, lazily initialised to 100 + key)
+        "tls_get" => tls_read(o),
+        "tls_set" => {
+            let f = |c: &TlsVal| {
+                let old = c.val.get();
+                c.val.set(op.v);
+                old
+            };
+            let r = if o == 0 { TL0.try_with(f) } else { TL1.try_with(f) };
+            r.unwrap_or(-7)
+        }
+        // ---- lazy statics: first access initialises (per execution)
+        "lz_fadd" => {
+            let l: &LzVal = if o == 0 { &LZ0 } else { &LZ1 };
+            l.a.fetch_add(op.v as u8, Ordering::SeqCst) as i64
+        }
+        "lz_load" => {
+            let l: &LzVal = if o == 0 { &LZ0 } else { &LZ1 };
+            l.a.load(Ordering::SeqCst) as i64
+        }
+        // ---- a `static` Once (process-global object, per-execution state)
+        "sonce" => {
+            let mut ran = 0;
+            let c = if o == 0 { &SONCE0 } else { &SONCE1 };
+            c.call_once(|| {
+                ran = 1;
+                if op.w >= 0 {
+                    w.atomics[op.w as usize].store(op.v as u8, Ordering::SeqCst);
+                }
+            });
+            ran
+        }
+        "sonce_done" => {
+            let c = if o == 0 { &SONCE0 } else { &SONCE1 };
+            if c.is_completed() {
+                1
+            } else {
+                0
+            }
+        }
+        // ---- identity
+        "tid" => {
+            let id: usize = thread::current().id().into();
+            id as i64
+        }
+        "name" => match thread::current().name() {
+            None => -1,
+            Some("main-thread") => -2,
+            Some(n) => n.trim_start_matches('t').parse::<i64>().unwrap_or(-3),
+        },
+        "spawn_named" => {
+            let child = op.v as usize;
+            let w2 = Arc::clone(warc);
+            let h = thread::Builder::new().name(format!("t{child}")).spawn(move || run_task(w2, child)).unwrap();
+            let tid: usize = h.thread().id().into();
+            *w.threads[child].get() = Some(h.thread().clone());
+            *w.handles[child].get() = Some(h);
+            tid as i64
+        }
         "reset_steps" => {
             shuttle::current::reset_step_count();
             0
